@@ -206,6 +206,8 @@ class QDepthwiseConv2DBatchnorm(QDepthwiseConv2D):
         keep_dims=keep_dims)
     gamma = self.batchnorm.gamma
     beta = self.batchnorm.beta
+    if beta is None:  # center=False: no offset
+      beta = 0.
     moving_mean = self.batchnorm.moving_mean
     moving_variance = self.batchnorm.moving_variance
 
@@ -351,6 +353,8 @@ class QDepthwiseConv2DBatchnorm(QDepthwiseConv2D):
     # get Batchnorm stats
     gamma = self.batchnorm.gamma
     beta = self.batchnorm.beta
+    if beta is None:  # center=False: no offset
+      beta = 0.
     moving_mean = self.batchnorm.moving_mean
     moving_variance = self.batchnorm.moving_variance
 
